@@ -377,9 +377,8 @@ Definition Pb14 (c : case) (o : obs) : bool :=
 
 (* ------------------------------------------------------------------ verdicts *)
 
-(* the theorems' guard (Proofs/EnumTables.enum_guard + the receiver guard of -bit) *)
-Definition in_guard (c : case) : bool :=
-  enum_guard (c_pkg c) (c_type c) && (negb (f_bit (c_flags c)) || recv_ok (c_type c)).
+(* the theorems' guard (Proofs/EnumTables.enum_guard) *)
+Definition in_guard (c : case) : bool := enum_guard (c_pkg c) (c_type c).
 
 (* code 3: inside the guard the MODEL's own observation fails Pb -- the boolean
    property and the theorems have drifted apart (never expected; reported as a
